@@ -274,6 +274,23 @@ var funcs = []fn{
 	{"direct", "*Socks5PacketServerUnpacker", "UnpackInPlace", "Socks5ServerUnpack"},
 	{"httpproxy", "", "hostHeaderToAddr", "hostHeaderToAddr"},
 	{"httpproxy", "", "serverHandleBasicAuth", "serverHandleBasicAuth"},
+	{"ss2022", "*ShadowPacketClientPacker", "PackInPlace", "ShadowPacketClientPack"},
+	{"ss2022", "*ShadowPacketServerPacker", "PackInPlace", "ShadowPacketServerPack"},
+	{"ss2022", "", "PutUDPClientMessageHeader", "PutUDPClientMessageHeader"},
+	{"ss2022", "", "PutUDPServerMessageHeader", "PutUDPServerMessageHeader"},
+	{"ss2022", "", "intToUint16", "intToUint16"},
+	{"ss2022", "*StreamClient", "DialStream", "StreamClientDialStream"},
+	{"ss2022", "", "PutTCPRequestVariableLengthHeader", "PutTCPRequestVariableLengthHeader"},
+	{"direct", "*DirectPacketClientPacker", "PackInPlace", "DirectClientPack"},
+	{"direct", "*ShadowsocksNonePacketClientPacker", "PackInPlace", "NoneClientPack"},
+	{"direct", "ShadowsocksNonePacketServerPacker", "PackInPlace", "NoneServerPack"},
+	{"direct", "*Socks5PacketClientPacker", "PackInPlace", "Socks5ClientPack"},
+	{"direct", "Socks5PacketServerPacker", "PackInPlace", "Socks5ServerPack"},
+	{"socks5", "", "WriteAddrFromConnAddr", "WriteAddrFromConnAddr"},
+	{"socks5", "", "WriteAddrFromAddrPort", "WriteAddrFromAddrPort"},
+	{"socks5", "", "LengthOfAddrFromConnAddr", "LengthOfAddrFromConnAddr"},
+	{"zerocopy", "", "UDPRelayHeadroom", "UDPRelayHeadroom"},
+	{"zerocopy", "", "MaxPacketSizeForAddr", "MaxPacketSizeForAddr"},
 	{"dns", "*resultBuilder", "parseMsg", "dnsParseMsg"},
 	{"dns", "*Resolver", "doTCP", "dnsDoTCP"},
 	{"dns", "*Resolver", "sendQueries", "dnsSendQueries"},
@@ -408,6 +425,12 @@ func shapeOf(p *lpkg, fd *ast.FuncDecl) (shape []string, guards []string) {
 					guards = append(guards, v)
 				}
 			}
+		case *ast.CaseClause:
+			for _, ce := range x.List {
+				if mentionsLenCap(p, ce) || hasOrdering(ce) {
+					shape = append(shape, "case "+p.Src(ce))
+				}
+			}
 		case *ast.IndexExpr:
 			if isSliceLike(p, x.X) {
 				shape = append(shape, p.Src(x))
@@ -433,6 +456,8 @@ func shapeOf(p *lpkg, fd *ast.FuncDecl) (shape []string, guards []string) {
 				switch {
 				case strings.HasPrefix(src, "binary.BigEndian."):
 					shape = append(shape, "call "+f.Sel.Name)
+				case f.Sel.Name == "IntN" || f.Sel.Name == "Intn":
+					shape = append(shape, "call "+p.Src(x))
 				case strings.HasPrefix(src, "unsafe."):
 					shape = append(shape, "call "+src)
 				case panickyMethods[f.Sel.Name]:
@@ -545,6 +570,18 @@ func main() {
 			}
 			l.BoolDef(m.lean, g, "router."+m.recv+".Meet checks the port against 0 before PortSet.Contains")
 		}
+		// relay re-pack: is every `mrand.IntN(x)` in the two ss2022 packers reached only when `x > 0`?
+		for _, m := range []struct{ recv, lean string }{{"*ShadowPacketClientPacker", "clientPackerGuardsIntN"}, {"*ShadowPacketServerPacker", "serverPackerGuardsIntN"}} {
+			fd, err := ss.Func(m.recv, "PackInPlace")
+			if err != nil {
+				return err
+			}
+			g, err := intNGuarded(ss, fd)
+			if err != nil {
+				return err
+			}
+			l.BoolDef(m.lean, g, "ss2022."+m.recv+".PackInPlace: every mrand.IntN(x) is under a condition with the conjunct `x > 0`")
+		}
 		// F4: does the service refuse `direct` + tunnelUDPTargetOnly + non-IP tunnelRemoteAddress at load?
 		sv, err := ld.Load("service")
 		if err != nil {
@@ -593,6 +630,79 @@ func main() {
 // without leaving instance terms that are equal only up to default transparency).
 func natAbbrev(l *gen.Lean, name, val, origin string) {
 	l.Raw(fmt.Sprintf("/-- %s -/\nabbrev %s : Nat := %s\n", origin, name, val))
+}
+
+// intNGuarded: every call `IntN(x)` (x an identifier) in the function sits in a tagless-switch case or an if whose
+// condition has the top-level conjunct `x > 0` / `0 < x` / `x >= 1`. No IntN call at all is GEN-BROKEN (the model has one).
+func intNGuarded(p *lpkg, fd *ast.FuncDecl) (bool, error) {
+	calls, guarded := 0, 0
+	var conjuncts func(e ast.Expr) []ast.Expr
+	conjuncts = func(e ast.Expr) []ast.Expr {
+		if pe, ok := e.(*ast.ParenExpr); ok {
+			return conjuncts(pe.X)
+		}
+		if b, ok := e.(*ast.BinaryExpr); ok && b.Op == token.LAND {
+			return append(conjuncts(b.X), conjuncts(b.Y)...)
+		}
+		return []ast.Expr{e}
+	}
+	positive := func(cond ast.Expr, arg string) bool {
+		for _, c := range conjuncts(cond) {
+			s := p.Src(c)
+			if s == arg+" > 0" || s == "0 < "+arg || s == arg+" >= 1" || s == "1 <= "+arg {
+				return true
+			}
+		}
+		return false
+	}
+	var walk func(n ast.Node, conds []ast.Expr)
+	walk = func(n ast.Node, conds []ast.Expr) {
+		switch x := n.(type) {
+		case nil:
+			return
+		case *ast.IfStmt:
+			walk(x.Init, conds)
+			walk(x.Body, append(conds[:len(conds):len(conds)], x.Cond))
+			walk(x.Else, conds)
+			return
+		case *ast.CaseClause:
+			c2 := conds
+			if len(x.List) == 1 {
+				c2 = append(conds[:len(conds):len(conds)], x.List[0])
+			}
+			for _, st := range x.Body {
+				walk(st, c2)
+			}
+			return
+		case *ast.CallExpr:
+			if se, ok := x.Fun.(*ast.SelectorExpr); ok && (se.Sel.Name == "IntN" || se.Sel.Name == "Intn") && len(x.Args) == 1 {
+				calls++
+				arg := p.Src(x.Args[0])
+				for _, c := range conds {
+					if positive(c, arg) {
+						guarded++
+						break
+					}
+				}
+			}
+		}
+		ast.Inspect(n, func(m ast.Node) bool {
+			if m == n || m == nil {
+				return true
+			}
+			switch m.(type) {
+			case *ast.IfStmt, *ast.CaseClause, *ast.CallExpr:
+				walk(m, conds)
+				return false
+			}
+			return true
+		})
+	}
+	walk(fd.Body, nil)
+	if calls == 0 {
+		return false, fmt.Errorf("%s: no IntN call found (the model of the padding draw no longer mirrors the code)", fd.Name.Name)
+	}
+	return guarded == calls, nil
 }
 
 func recvDot(r string) string {
